@@ -104,9 +104,14 @@ let run mode file =
          Hashtbl.remove s.readers (int_of_string id); expect res_s (if had then "ok" else "notx") "endr"
        | ["commit"] -> bump "commit";
          (match s.work with
-          | Some w -> if snd w <> [] then s.stale <- true; s.committed <- w; s.work <- None;
+          | Some w -> if snd w <> [] then s.stale <- true;
+            let prev_committed = Some s.committed in
+            s.committed <- w; s.work <- None;
             (match res with
              | ["ok"] -> ()
+             | ["EMaxSizeReached"] ->
+               (* the size limit refused the transaction: it is rolled back as a whole *)
+               s.committed <- Option.get prev_committed; flag "err-EMaxSizeReached"
              | ["ok"; bc] when String.length bc > 15 && String.sub bc 0 15 = "blocked-closed=" ->
                (* the commit had to remap and waited for readers: the harness closed these (an input) *)
                flag "remap-blocked";
